@@ -753,7 +753,16 @@ class _Run:
         if callee is None:
             name = "<indirect>"
             fv = self.deref_val(st, self.operand(st, t["func"]))
-            result = sym.call(name, [fv] + args, site, occ)
+            ftarget = self.world.fns.get(payload(fv)[1]) if tag(fv) == "fnref" else None
+            if ftarget is not None and ftarget.crate in WORKSPACE:
+                # a call through a function pointer whose value is known on this path (`let f = if c { g } else { h }; f(..)`)
+                target_fn = ftarget
+                name = target_fn.pretty
+                callee = {"name": target_fn.name, "pretty": target_fn.pretty, "trait": None, "args": [], "res_kind": "item",
+                          "res_krate": target_fn.crate, "res_key": target_fn.key, "krate": target_fn.crate}
+                result = self.model(st, callee, name, args, raw, site, occ, target_fn, t)
+            else:
+                result = sym.call(name, [fv] + args, site, occ)
         else:
             name = strip_generics(callee["pretty"])
             self_ty = callee.get("self_ty") or callee.get("impl_self")
